@@ -35,7 +35,7 @@ DEFS = ["-DFOONATHAN_MEMORY=1", "-DFOONATHAN_MEMORY_VERSION_MAJOR=0",
         "-DFOONATHAN_MEMORY_VERIF=1"]
 
 CXX = os.environ.get("VERIF_CXX", "g++")
-CXXFLAGS = ["-std=c++17", "-O1", "-g", "-fno-omit-frame-pointer"]
+CXXFLAGS = ["-std=c++17", "-O1", "-g", "-fno-omit-frame-pointer"] + os.environ.get("VERIF_EXTRA_CXXFLAGS", "").split()
 
 
 def tree_hash(repo, extra=""):
